@@ -1257,21 +1257,23 @@ pub fn run_c20(ctx: &Ctx) -> i32 {
         "model_checking",
         "for every universe of the listed families, every sequence (length = depth) of get_or_cache_candidates / matching / non_matching / sorted (single + union) / dependencies / are_dependencies_available_for calls over a per-universe alphabet is replayed on a fresh bare SolverCache and every answer compared with the reference (filter, rank order, favored rotation, availability rule, same address, no provider call on repeats); plus full solves with a sort_candidates that calls back into the cache; non-trivial = every distinct universe",
     );
-    let fams: Vec<(Box<dyn Family>, u64)> = vec![
-        (
-            Box::new(Decorated::new("F3 skeletons", skeletons(), if q { 1 } else { 2 }, false, &|d| {
-                matches!(d, Deco::Favor(_) | Deco::Hint(..) | Deco::Exclude(..) | Deco::AddReq(_, VsSpec::Empty(_)) | Deco::AddReq(_, VsSpec::Missing) | Deco::AddUnion(..) | Deco::Unknown(_))
-            })),
-            if q { 2 } else { 1 },
-        ),
-        (crate::plans::f4(&ctx.tier), if q { 4001 } else { 97 }),
+    let deco = |d: &Deco| matches!(d, Deco::Favor(_) | Deco::Hint(..) | Deco::Exclude(..) | Deco::AddReq(_, VsSpec::Empty(_)) | Deco::AddReq(_, VsSpec::Missing) | Deco::AddUnion(..) | Deco::Unknown(_));
+    // (family, stride, depth of the call sequences). Thorough: all universes with <= 1 decoration at
+    // depth 4, those with <= 2 decorations at depth 2 (sized so that the tier finishes in about an hour)
+    let mut fams: Vec<(Box<dyn Family>, u64, usize)> = vec![
+        (Box::new(Decorated::new("F3 skeletons", skeletons(), 1, false, &deco)), if q { 2 } else { 1 }, depth),
+        (crate::plans::f4(&ctx.tier), if q { 4001 } else { 997 }, depth),
     ];
+    if !q {
+        fams.push((Box::new(Decorated::new("F3 skeletons", skeletons(), 2, false, &deco)), 1, 2));
+    }
     let mut states = 0;
     let mut transitions = 0;
-    for (fi, (fam, stride)) in fams.iter().enumerate() {
+    for (fi, (fam, stride, depth)) in fams.iter().enumerate() {
+        let depth = *depth;
         let opts = SweepOpts {
             threads: threads(),
-            wall_limit_s: 120,
+            wall_limit_s: 600,
             on_stuck: Box::new(|_, idx| { eprintln!("MACHINERY ERROR: C20 stuck at {idx}"); None }),
             fam_no: fi,
             stride: *stride,
